@@ -235,6 +235,11 @@ def gen_scenario(rng, **opts):
                     if rng.random() < 0.7:
                         acts.append(["bend"])
                 u["acts"][str(si)] = acts
+    # commission rates other than the default, 0 included ("all client commission rates"): a side generator again
+    cr = random.Random("commission|%r|%r" % (len(markets), markets[0]["updates"][0]["runners"]))
+    for c in sc["clients"]:
+        if cr.random() < opts.get("p_commission", 0.3):
+            c["commission"] = cr.choice([0.0, 0.0, 0.02, 0.065, 0.1])
     # adjustment factors at the reduction threshold (2.5 is reduced, anything below is not) in a few scenarios: every runner of one
     # market gets the boundary value; drawn from a generator of its own so that the main random stream stays as it was
     br = random.Random("afboundary|%r|%r" % (len(markets), markets[0]["updates"][0]["runners"]))
